@@ -700,7 +700,7 @@ void vf_run(vf::Ctx& c)
     enum_values_x_ops(c);
     fixed_cases(c);
     // E1: random histories of <= 40 ops over two bitsets, every type of this width (each shard has its own seed)
-    int const per_cfg = c.thorough() ? (N <= 33 ? 60000 : 25000) : (N <= 33 ? 4000 : 2000);
+    int const per_cfg = c.thorough() ? (N <= 33 ? 200000 : 100000) : (N <= 33 ? 4000 : 2000);
     for (std::uint32_t ci = 0; ci < nconfigs; ++ci) {
         auto gen = rc::gen::map(vf::gen_history(1, NCODES, 40), [ci](OpsCase k) {
             k.cfg = ci;
